@@ -1,8 +1,10 @@
-(* Known finding F19 (C11): a ttl of -2^31 s requested at 2026 puts the expiry in 1958; the stored
-   field wraps and the key reads as valid until 2094.  Evidence, not an obligation. *)
+(* F19 (C11, repaired by 02368b5): Key.SetExpires stored uint32(expiry - 2010 epoch); a ttl of -2^31 s
+   requested at 2026 puts the expiry in 1958, the stored field wrapped and the key read as valid until
+   2094.  The raw conversion is kept here as the record of the finding. *)
 From Emitter Require Import Lib.Base Model.MsgCodec Model.Key.
+Definition expiry_field_wrapping (t : Z) : N := u32z (if (0 <? t)%Z then t - timeOffset else t)%Z.
 Lemma C11_expiry_wrap_refuted :
   let now := 1790000000%Z in
   let requested := (now - 2147483648)%Z in
-  (requested < now)%Z /\ (Z.of_N (expiry_field_of requested) + timeOffset > now + 2000000000)%Z.
+  (requested < now)%Z /\ (Z.of_N (expiry_field_wrapping requested) + timeOffset > now + 2000000000)%Z.
 Proof. vm_compute. split; reflexivity. Qed.
